@@ -7,10 +7,10 @@ def instances(tier):
     L = []
 
     def CB(name, d, unwind, **k):
-        L.append(Inst(name, "C05/callbacks.c", d, link=[], unwind=unwind, timeout=1200 if tier == "thorough" else 300, **k))
+        L.append(Inst(name, "C05/callbacks.c", d, link=[], unwind=unwind, timeout=1200 if tier == "thorough" else 900, **k))
 
     def TR(name, d, **k):
-        L.append(Inst(name, "C05/trivial.c", d, link=[], unwind=6, timeout=1200 if tier == "thorough" else 400, **k))
+        L.append(Inst(name, "C05/trivial.c", d, link=[], unwind=6, timeout=1200 if tier == "thorough" else 900, **k))
     cbname = {0: "union_o", 1: "intersect_o", 2: "subtract_o"}
     pairs = ((1, 1), (2, 1), (2, 2)) if tier == "quick" else ((1, 1), (1, 2), (2, 1), (2, 2), (3, 2), (2, 3), (3, 3))
     for bits in (32, 16):
